@@ -395,3 +395,6 @@ UNITS.append(Unit("C06", "jsonargparse._actions:_find_parent_action_and_subcomma
 
 from contracts.apply_actions import apply_actions_unit  # noqa: E402
 UNITS.append(apply_actions_unit("C06"))
+
+from contracts.check_value_key import check_value_key_unit  # noqa: E402
+UNITS.append(check_value_key_unit("C06"))
